@@ -190,8 +190,26 @@ class FullWorld:
         e = self.end_of(link, n)
         return getattr(link.ends[e].protocol, "_wrappedProtocol", link.ends[e].protocol)
 
+    frag = 0        # 0: units arrive whole; k > 0: every unit of more than one byte arrives in two reads, split k-dependently
+
     def deliver_unit(self, link, frm):
         late = getattr(self, "after_close", {}).get((id(link), frm))
+        if self.frag and link.ends[frm].out and len(link.ends[frm].out[0]) > 1:
+            # TCP may hand over any prefix first: just before the last byte, the last two, the middle, after the first byte
+            n = len(link.ends[frm].out[0])
+            # (frag 1..4: a different split for each unit in turn; 5..8: the same kind of split for every unit of the run)
+            k = [n - 1, n - 2, n // 2, 1][(self.frag + (getattr(self, "_fragn", 0) if self.frag < 5 else 3)) % 4]
+            self._fragn = getattr(self, "_fragn", 0) + 1
+            try:
+                link.deliver(frm, max(1, k))
+            except sim._ProtocolRaised as e:
+                self.internal.append("dataReceived: %s" % (str(e)[:120],))
+                link.do_cut()
+                if link.can_observe_loss(1 - frm):
+                    link.observe_loss(1 - frm)
+                return
+            if not link.can_deliver(frm):
+                return
         if not link.ends[frm].out and late:
             # written before that end closed in an orderly way: TCP still delivers it to the peer
             unit = late.pop(0)
@@ -277,6 +295,9 @@ class FullWorld:
                 pass
         elif a == "Cut":
             self.links[i].do_cut()
+            if not hasattr(self, "network_cuts"):
+                self.network_cuts = set()
+            self.network_cuts.add(id(self.links[i]))
         elif a == "MonitorDrop":
             # two ping intervals pass without any answer reaching the Leader: its interval timer expires twice
             m = self.manager("L")
@@ -441,7 +462,9 @@ class FullWorld:
                     ok = False
             if ok:
                 cur.append(link)
-        return bool(cur) and all(l.cut for l in cur)
+        # (cut by the *network*: a link that one of its ends closed by its own decision - or whose protocol raised - also has
+        # link.cut set by the simulator, and is not the network's doing)
+        return bool(cur) and all(id(l) in getattr(self, "network_cuts", ()) for l in cur)
 
     # ---- observation ------------------------------------------------------------------------------------------------------
     def selected_links(self, n):
@@ -578,6 +601,7 @@ BENIGN = ("no transition for MethodicalInput(method=<function Connector.accept",
 def replay_behaviour(tid, states, no_listen=(), then_stop=()):
     w = FullWorld(variant=tid, no_listen=no_listen)
     w.traffic = (tid % 2 == 0)
+    w.frag = tid % 9                          # most replays fragment the handshake units (FullWorld.deliver_unit)
     drift = None
     for i, st in enumerate(states[1:], start=1):
         la = st["last"]
@@ -766,6 +790,10 @@ def run(prop, tier):
                 "stop_connected_both": 'stopReq.L /\\ last[1] = "Stop" /\\ sel.L > 0 /\\ sel.F = sel.L',
                 "both_stop": "stopReq.L /\\ stopReq.F /\\ nlinks >= 1",
                 # a connection that has been up for a ping interval (the close itself is added on the real side: then_stop)
+                # a connection that died between becoming a candidate and being selected: its Manager holds a dead connection
+                # until the queued loss callback runs (closed by L / F / both afterwards, like the keepalive ones)
+                "keepalive_selected_dead_L": 'sel.L > 0 /\\ links[sel.L].endst.L = "down" /\\ last[1] = "TurnAccept"',
+                "keepalive_selected_dead_F": 'sel.F > 0 /\\ links[sel.F].endst.F = "down" /\\ last[1] = "TurnAccept"',
                 "keepalive_first_connection": 'last[1] = "KeepAlive" /\\ cuts = 0',
                 "keepalive_after_reconnect": 'last[1] = "KeepAlive" /\\ cuts >= 1',
             }
@@ -794,7 +822,7 @@ def run(prop, tier):
             rec["origin"] = origin
             rec["oldpeer"] = {"ok": True, "closed": True}
             records.append(rec)
-            meta[tid] = {"schedule": w.schedule, "no_listen": sorted(nolisten), "traffic": w.traffic}
+            meta[tid] = {"schedule": w.schedule, "no_listen": sorted(nolisten), "traffic": w.traffic, "frag": w.frag}
             if drift:
                 ndrift += 1
                 if len(cov["drift"]) < 8:
